@@ -27,8 +27,8 @@ enum HavokTagType {
 }
 
 impl HavokTagType {
-    pub fn from_raw(raw: u8) -> Self {
-        match raw {
+    pub fn from_raw(raw: u8) -> Option<Self> {
+        Some(match raw {
             255 => HavokTagType::Eof,
             0 => HavokTagType::Invalid,
             1 => HavokTagType::FileInfo,
@@ -38,8 +38,8 @@ impl HavokTagType {
             5 => HavokTagType::Backref,
             6 => HavokTagType::ObjectNull,
             7 => HavokTagType::FileEnd,
-            _ => panic!(),
-        }
+            _ => return None,
+        })
     }
 }
 
@@ -53,7 +53,8 @@ pub struct HavokBinaryTagFileReader<'a> {
 }
 
 impl<'a> HavokBinaryTagFileReader<'a> {
-    /// Reads a tag file; `None` when the data ends early.
+    /// Reads a tag file; `None` when the data ends early, does not start with the tag-file
+    /// signature, or contains a tag this reader does not know.
     pub fn read(data: &'a [u8]) -> Option<HavokRootObject> {
         let mut reader = Self::new(ByteReader::new(data));
 
@@ -85,18 +86,21 @@ impl<'a> HavokBinaryTagFileReader<'a> {
         let signature1 = self.reader.try_read_bytes(4)?.to_int_le::<u32>();
         let signature2 = self.reader.try_read_bytes(4)?.to_int_le::<u32>();
         if signature1 != 0xCAB0_0D1E || signature2 != 0xD011_FACE {
-            panic!()
+            return None;
         }
 
         loop {
-            let tag_type = HavokTagType::from_raw(self.read_packed_int()? as u8);
+            let tag_type = HavokTagType::from_raw(self.read_packed_int()? as u8)?;
             match tag_type {
                 HavokTagType::FileInfo => {
                     self.file_version = self.read_packed_int()? as u8;
-                    assert_eq!(self.file_version, 3, "Unimplemented version");
+                    if self.file_version != 3 {
+                        // Unimplemented version
+                        return None;
+                    }
                     self.remembered_objects
                         .push(Arc::new(RefCell::new(HavokObject::new(
-                            self.remembered_types[0].clone(),
+                            self.remembered_types.first()?.clone(),
                             HashMap::new(),
                         ))))
                 }
@@ -104,7 +108,7 @@ impl<'a> HavokBinaryTagFileReader<'a> {
                     let object_type = self.read_type()?;
                     self.remembered_types.push(Arc::new(object_type));
                 }
-                HavokTagType::Backref => panic!(),
+                HavokTagType::Backref => return None,
                 HavokTagType::ObjectRemember => {
                     let object = Arc::new(RefCell::new(self.read_object()?));
 
@@ -114,7 +118,7 @@ impl<'a> HavokBinaryTagFileReader<'a> {
                 HavokTagType::FileEnd => {
                     break;
                 }
-                _ => panic!(),
+                _ => return None,
             }
         }
 
@@ -123,7 +127,8 @@ impl<'a> HavokBinaryTagFileReader<'a> {
             self.fill_object_reference(&mut object.borrow_mut());
         }
 
-        Some(HavokRootObject::new(self.remembered_objects[1].clone()))
+        // (the root is the first object of the file: entry 0 is the placeholder of the FileInfo tag)
+        Some(HavokRootObject::new(self.remembered_objects.get(1)?.clone()))
     }
 
     fn read_object(&mut self) -> Option<HavokObject> {
